@@ -165,7 +165,14 @@ def gen_request(rng, p_odd=0.08):
         line = m + b"  " + t + b" " + p
     else:
         line = m + b" " + t + b" " + p
+    if rng.random() < 0.05 and t.startswith(b"/") and p == b"HTTP/1.1":
+        # a request line whose length is around a power of two, or at the default limit of 1000
+        total = rng.choice(THRESHOLDS + [998, 999, 1000, 1001])
+        line = m + b" " + pad_to(t, total - len(m) - 10, b"a") + b" " + p
     fields = gen_fields(rng, p_odd)
+    if rng.random() < 0.05:
+        total = rng.choice(THRESHOLDS + [996, 997, 998, 999])
+        fields.insert(rng.randint(0, len(fields)), pad_to(b"X-Pad: ", total, b"v"))
     body = b""
     r = rng.random()
     if r < 0.55:
@@ -183,6 +190,12 @@ def gen_request(rng, p_odd=0.08):
     head = line + eol + block(fields)
     meta = {"line": len(line), "field_lines": [len(x) + 2 for f in fields for x in f.split(CRLF)],
             "head": len(head), "body": len(body)}
+    if rng.random() < 0.03:
+        # empty lines ahead of the request line (RFC 7230 section 3.5 lets a server skip them; this parser does
+        # not): whatever it does with them must not depend on the delivery
+        k = rng.randint(1, 3)
+        head = CRLF * k + head
+        meta = {"line": 0, "field_lines": meta["field_lines"], "head": len(head), "body": len(body)}
     return head + body, meta
 
 
@@ -203,9 +216,25 @@ def limit_triples(rng, meta, n=4):
 EXT_ODD = [b";\xff\xfe", b";x=\x80", b";note=\xc3", b";\xed\xa0\x80", b";a\rb", b";a\nb", b";\x00", b";" + b"y" * 1200]
 
 
-def gen_chunk_ext(rng, p_odd=0.0):
+THRESHOLDS = [62, 63, 64, 65, 126, 127, 128, 129, 254, 255, 256, 257, 511, 512, 513]
+
+
+def pad_to(prefix, total, fill=b"p"):
+    """prefix followed by filler so that the whole is `total` bytes long (prefix alone when it is longer)"""
+    return prefix + fill * max(0, total - len(prefix))
+
+
+def gen_chunk_ext(rng, p_odd=0.0, size_len=1):
     if rng.random() < p_odd:
         return rng.choice(EXT_ODD)
+    r = rng.random()
+    if r < 0.06:
+        # the whole chunk-size line (size field + extension) of a length around a power of two
+        total = rng.choice(THRESHOLDS)
+        return pad_to(b";e=", max(3, total - size_len), b"x")
+    if r < 0.12:
+        # quoted-string extension values: escaped quotes, an odd number of quote characters, CR/LF-free
+        return rng.choice([b';note="a\\"b"', b';q="', b';a="x";b="y\\"z"', b';a=""', b';a="\\\\"', b';"', b';a="b";c=\"'])
     return rng.choice([b"", b"", b"", b";a", b";a=b", b";a=\"q;x\"", b";a;b;c", b"; sp", b";\xc3\xa9", b";" + b"x" * 20])
 
 
@@ -229,7 +258,7 @@ def gen_chunked(rng, p_odd=0.0, payload=None):
         size = hexnum(rng, n)
         if rng.random() < p_odd:
             size = rng.choice(HEX_ODD)
-        out += size + gen_chunk_ext(rng, p_odd) + CRLF + payload[i:i + n]
+        out += size + gen_chunk_ext(rng, p_odd, len(size)) + CRLF + payload[i:i + n]
         out += CRLF if rng.random() >= p_odd else rng.choice([b"\n", b"\r", b"", b"x\r\n", b"\r\r\n", b"\n\r"])
         i += n
     last = b"0" * rng.randint(1, 3)
@@ -282,7 +311,13 @@ def gen_response(rng, p_odd=0.08, framing=None):
         line = proto + b" " + code
     else:
         line = proto + b" " + code + b" " + reason
+    if rng.random() < 0.05:
+        line = pad_to(proto + b" " + code + b" R", rng.choice(THRESHOLDS + [1000, 1001, 4095, 4096, 4097]), b"r")
     fields = gen_fields(rng, p_odd)
+    if rng.random() < 0.05:
+        fields.insert(rng.randint(0, len(fields)), pad_to(b"X-Pad: ", rng.choice(THRESHOLDS + [999, 1000, 4096]), b"v"))
+    if rng.random() < 0.02 and line.startswith(b"HTTP/1.1 "):
+        line = CRLF * rng.randint(1, 2) + line
     framing = framing or rng.choice(["cl", "cl", "chunked", "chunked", "none", "both"])
     body = b""
     meta = {"framing": framing}
